@@ -64,13 +64,13 @@ def analyse(fn):
             names.setdefault(st.targets[0].id, st)
     vx = [n for n, st in names.items() if roles.canon(st.value, roles._NoDefs()).replace(" ", "") == "%s.elements[(%s,%s)]" % (gd, li, el)]
     if len(vx) != 1:
-        out.append(("vertex of (element, local index)", False, "no local is defined as %s.elements[local_index, element] (found %s)" % (gd, {n: unparse(s.value)[:40] for n, s in names.items()}), inner.lineno))
+        out.append(("vertex of (element, local index)", roles.found_or(False, names, "%s.elements[" % gd), "no local is defined as %s.elements[local_index, element] (found %s)" % (gd, {n: unparse(s.value)[:40] for n, s in names.items()}), inner.lineno))
         return out
     V = vx[0]
     out.append(("vertex of (element, local index)", True, "", inner.lineno))
     want = roles.canon(ast.parse("%s[%s[%s]:%s[%s+1]]" % (vn, ptr, V, ptr, V), mode="eval").body, roles._NoDefs()).replace(" ", "")
     nb = [n for n, st in names.items() if roles.canon(st.value, roles._NoDefs()).replace(" ", "") == want]
-    out.append(("neighbours of the vertex", len(nb) == 1, "no local holds the CSR row %s[%s[v] : %s[v + 1]] of the vertex" % (vn, ptr, ptr), inner.lineno))
+    out.append(("neighbours of the vertex", roles.found_or(len(nb) == 1, names, vn + "["), "no local holds the CSR row %s[%s[v] : %s[v + 1]] of the vertex" % (vn, ptr, ptr), inner.lineno))
     if len(nb) != 1:
         return out
     NB = nb[0]
@@ -80,7 +80,7 @@ def analyse(fn):
         if isinstance(v, ast.ListComp) and len(v.generators) == 1 and isinstance(v.elt, ast.Name) and unparse(v.generators[0].target) == v.elt.id and unparse(v.generators[0].iter) == NB \
                 and len(v.generators[0].ifs) == 1 and unparse(v.generators[0].ifs[0]).replace(" ", "") == "not%s[%s]" % (support, v.elt.id):
             ns.append(n)
-    out.append(("neighbours outside the support", len(ns) == 1, "no local holds [n for n in <neighbours> if not %s[n]]" % support, inner.lineno))
+    out.append(("neighbours outside the support", roles.found_or(len(ns) == 1, names, support + "[", "for"), "no local holds [n for n in <neighbours> if not %s[n]]" % support, inner.lineno))
     if len(ns) != 1:
         return out
     NS = ns[0]
